@@ -62,6 +62,7 @@ type lockHist struct {
 	MinLock   int64      `json:"min_lock_s"`
 	Init      []initPool `json:"init"`
 	Reward    uint64     `json:"reward"`
+	Twin      bool       `json:"twin,omitempty"` // storagesc kinds: a stake pool of the OTHER provider type exists under the same id
 	Ops       []lockOp   `json:"ops"`
 }
 
@@ -94,6 +95,7 @@ type lockRun struct {
 	final  []poolObs
 	finRew uint64
 	init   []poolObs
+	twin   []string // digest of the stake pool stored under the other provider type and the same id, before each op and at the end
 }
 
 func (h *lockHist) provType() spenum.Provider {
@@ -194,6 +196,30 @@ func (h *lockHist) withPool(ctx *cstate.StateContext, f func(sp *stakepool.Stake
 	return sp.Save(h.provType(), pid, ctx)
 }
 
+// otherType: the other storagesc provider type (blobber <-> validator); 0 for the other kinds.
+func (h *lockHist) otherType() spenum.Provider {
+	switch h.Kind {
+	case "blobber":
+		return spenum.Validator
+	case "validator":
+		return spenum.Blobber
+	}
+	return 0
+}
+
+// twinDigest describes the stake pool stored under (other type, same id): "" when absent.
+func (h *lockHist) twinDigest(ctx *cstate.StateContext) string {
+	t := h.otherType()
+	if t == 0 {
+		return ""
+	}
+	sp, off, err := storagesc.VerifGetStakePool(t, hexID(provIdx), ctx)
+	if err != nil {
+		return ""
+	}
+	return fmt.Sprintf("dead=%v reward=%d offers=%d pools=%v", sp.HasBeenKilled, sp.Reward, off, snapshotPools(sp))
+}
+
 func snapshotPools(sp *stakepool.StakePool) []poolObs {
 	var out []poolObs
 	for _, id := range sp.OrderedPoolIds() {
@@ -256,6 +282,16 @@ func (h *lockHist) setup(e *env, now int64) {
 					return err
 				}
 			}
+			if h.Twin {
+				tw := stakepool.NewStakePool()
+				tw.Settings = stakepool.Settings{DelegateWallet: hexID(51), MaxNumDelegates: 10}
+				tw.Minter = cstate.MinterStorage
+				tw.Reward = 11
+				tw.Pools[hexID(7)] = &stakepool.DelegatePool{Balance: 555, Reward: 5, DelegateID: hexID(7), Status: spenum.Active}
+				if err := storagesc.VerifPutStakePool(h.otherType(), pid, tw, 3, ctx); err != nil {
+					return err
+				}
+			}
 			return storagesc.VerifPutStakePool(h.provType(), pid, sp, currency.Coin(h.Offers), ctx)
 		})
 	default:
@@ -310,6 +346,7 @@ func runLock(h *lockHist) *lockRun {
 			}
 			r.pre = append(r.pre, snapshotPools(sp))
 			r.preRew = append(r.preRew, uint64(sp.Reward))
+			r.twin = append(r.twin, h.twinDigest(ctx))
 		})
 		var o opObs
 		o.At = now - op.Ago
@@ -379,6 +416,7 @@ func runLock(h *lockHist) *lockRun {
 		}
 		r.final = snapshotPools(sp)
 		r.finRew = uint64(sp.Reward)
+		r.twin = append(r.twin, h.twinDigest(ctx))
 	})
 	return r
 }
@@ -427,6 +465,17 @@ func oracleLock(h *lockHist, r *lockRun, kinds map[string]int) string {
 	for _, p := range r.init {
 		accrued[p.Client] = bz(p.Reward)
 	}
+	earned := map[int]*big.Int{} // all rewards ever credited to a client's pool (incl. the initial ones)
+	paid := map[int]*big.Int{}   // all rewards ever paid out to it
+	for _, p := range r.init {
+		earned[p.Client] = bz(p.Reward)
+	}
+	bump := func(m map[int]*big.Int, c int, v *big.Int) {
+		if m[c] == nil {
+			m[c] = new(big.Int)
+		}
+		m[c].Add(m[c], v)
+	}
 	acc := func(c int) *big.Int {
 		if accrued[c] == nil {
 			accrued[c] = new(big.Int)
@@ -450,6 +499,9 @@ func oracleLock(h *lockHist, r *lockRun, kinds map[string]int) string {
 		}
 		o := r.obs[i]
 		me := hexID(op.Client)
+		if r.twin[i+1] != r.twin[i] {
+			return "other-providers-pool-overwritten" // a call addressed to (type, id) touched the pool stored under another type
+		}
 		if !o.OK {
 			kinds[op.K+"-rejected"]++
 			if !othersSame(pre, post, -1) || postRew != r.preRew[i] {
@@ -525,6 +577,16 @@ func oracleLock(h *lockHist, r *lockRun, kinds map[string]int) string {
 			if gotMint.Cmp(wantMint) != 0 {
 				return "unlock-rewards-not-exact"
 			}
+			{
+				mine2 := new(big.Int).Set(gotMint)
+				if op.Client == h.Wallet {
+					mine2.Sub(mine2, bz(r.preRew[i]))
+				}
+				bump(paid, op.Client, mine2)
+				if e := earned[op.Client]; paid[op.Client].Cmp(map[bool]*big.Int{true: e, false: new(big.Int)}[e != nil]) > 0 {
+					return "reward-paid-twice"
+				}
+			}
 			owed := new(big.Int).Set(acc(op.Client))
 			if op.Client == h.Wallet {
 				owed.Add(owed, bz(r.preRew[i]))
@@ -567,6 +629,19 @@ func oracleLock(h *lockHist, r *lockRun, kinds map[string]int) string {
 			if got.Cmp(want) != 0 {
 				return "collect-not-exact"
 			}
+			{
+				mine2 := new(big.Int).Set(got)
+				if op.Client == h.Wallet {
+					mine2.Sub(mine2, bz(r.preRew[i]))
+				}
+				bump(paid, op.Client, mine2)
+				if e := earned[op.Client]; paid[op.Client].Cmp(map[bool]*big.Int{true: e, false: new(big.Int)}[e != nil]) > 0 {
+					return "reward-paid-twice"
+				}
+				if after != nil && after.Reward != 0 {
+					return "collected-reward-not-cleared" // the pool still records a reward that was just paid out
+				}
+			}
 			owedC := new(big.Int).Set(acc(op.Client))
 			if op.Client == h.Wallet {
 				owedC.Add(owedC, bz(r.preRew[i]))
@@ -593,6 +668,7 @@ func oracleLock(h *lockHist, r *lockRun, kinds map[string]int) string {
 						return "reward-decreased-a-reward"
 					}
 					acc(p.Client).Add(acc(p.Client), bz(q.Reward-p.Reward))
+					bump(earned, p.Client, bz(q.Reward-p.Reward))
 				}
 			}
 		}
@@ -690,6 +766,9 @@ func genLock(r *vh.Rand) *lockHist {
 		h.MinStake = genRealistic(r) % 2000
 	}
 	if storage && r.Chance(1, 2) {
+		h.Twin = true
+	}
+	if storage && r.Chance(1, 2) {
 		h.Offers = []uint64{1, 50, 500, 1e10}[r.Intn(4)]
 	}
 	amount := func() uint64 {
@@ -773,7 +852,14 @@ func genLock(r *vh.Rand) *lockHist {
 			}
 			h.Ops = append(h.Ops, lockOp{K: "reward", Value: v})
 		default:
-			h.Ops = append(h.Ops, lockOp{K: "collect", Client: []int{c, h.Wallet}[r.Intn(2)]})
+			cc := []int{c, h.Wallet}[r.Intn(2)]
+			if len(lockers) > 0 && r.Chance(1, 2) {
+				cc = lockers[r.Intn(len(lockers))]
+			}
+			h.Ops = append(h.Ops, lockOp{K: "collect", Client: cc})
+			if r.Chance(1, 3) { // collect twice in a row: the second one must pay nothing new
+				h.Ops = append(h.Ops, lockOp{K: "collect", Client: cc})
+			}
 		}
 	}
 	return h
@@ -794,6 +880,10 @@ func fixedLock() []*lockHist {
 			Ops: []lockOp{{K: "lock", Client: 1, Value: 100, CBal: b(5000), Ago: 5000}, {K: "lock", Client: 2, Value: 100, CBal: b(5000), Ago: 5000},
 				{K: "reward", Value: 1000}, {K: "lock", Client: 1, Value: 50, CBal: b(5000), Ago: 5000}, {K: "reward", Value: 500},
 				{K: "unlock", Client: 1}, {K: "collect", Client: 2}}})
+		// the same id also has a stake pool under the other storagesc provider type; collect, collect again, unstake
+		out = append(out, &lockHist{Kind: k, VMin: 10, VMax: 1000, MaxDel: 3, RatioBits: ratio, Wallet: 50, MinLock: 100, Twin: true,
+			Ops: []lockOp{{K: "lock", Client: 1, Value: 100, CBal: b(5000), Ago: 5000}, {K: "reward", Value: 700},
+				{K: "collect", Client: 1}, {K: "collect", Client: 1}, {K: "collect", Client: 50}, {K: "unlock", Client: 1}}})
 	}
 	return out
 }
